@@ -56,7 +56,7 @@ func init() {
 		// ---- getOrCreate -------------------------------------------------------------------
 		if g := x.Func(pkg, "getOrCreate"); x.Assert("metrics:getOrCreate", g != nil && g.Body != nil, "function getOrCreate not found") {
 			ok, why := analyseGetOrCreate(g)
-			x.Assert("metrics:getOrCreate-shape", ok, "expected key := mc.metricKey(name, tags); lookups and the single store all on storage[key]; %s", why)
+			x.Assert("metrics:getOrCreate-shape", ok, "expected key := mc.metricKey(name, tags); lookups and the single store all on storage[key]; the store under mc.mu.Lock() and preceded there by a second lookup; %s", why)
 		}
 		for _, m := range [][2]string{{"Counter", "counters"}, {"Gauge", "gauges"}, {"Histogram", "histograms"}, {"Timer", "timers"}} {
 			ok := false
@@ -200,6 +200,29 @@ func init() {
 				}
 			}
 			x.Assert("metrics:"+rf.fn, f != nil && guard && len(miss) == 0, "expected `if !pm.enabled { return }` first and pm.collector.Counter(...) calls for %v (missing %v)", rf.want, miss)
+		}
+
+		// ---- search_monitored.go: one record call per monitored operation -----------------------
+		for _, w := range [][2]string{{"SearchWithMonitoring", "mdb.monitor.RecordSearchOperation"}, {"SearchWithOptionsAndMonitoring", "mdb.monitor.RecordSearchOperation"},
+			{"LoadDatabaseWithMonitoring", "mdb.monitor.RecordDatabaseOperation"}} {
+			f := methodOf(x, "internal/database", "MonitoredDatabase", w[0])
+			n, top := 0, 0
+			if f != nil && f.Body != nil {
+				ast.Inspect(f.Body, func(nd ast.Node) bool {
+					if c, ok := nd.(*ast.CallExpr); ok && exprStr(c.Fun) == w[1] {
+						n++
+					}
+					return true
+				})
+				for _, st := range f.Body.List {
+					if es, ok := st.(*ast.ExprStmt); ok {
+						if c, ok := es.X.(*ast.CallExpr); ok && exprStr(c.Fun) == w[1] {
+							top++
+						}
+					}
+				}
+			}
+			x.Assert("metrics:MonitoredDatabase."+w[0], n == 1 && top == 1, "expected exactly one unconditional call of %s (found %d, %d at top level)", w[1], n, top)
 		}
 
 		sb.WriteString("end Wtf.Gen.Metrics\n")
@@ -550,9 +573,17 @@ func analyseGetOrCreate(fd *ast.FuncDecl) (bool, string) {
 	if keyVar == "" {
 		return false, "no `key := mc.metricKey(name, tags)`"
 	}
-	okIdx, stores, lockPos, storePos := true, 0, token.NoPos, token.NoPos
+	okIdx, stores, lockPos, storePos, recheckPos := true, 0, token.NoPos, token.NoPos, token.NoPos
 	ast.Inspect(fd.Body, func(n ast.Node) bool {
 		switch t := n.(type) {
+		case *ast.IfStmt:
+			// `if item, exists := storage[key]; exists { ...; return item }`
+			if as, ok := t.Init.(*ast.AssignStmt); ok && as.Tok == token.DEFINE && len(as.Lhs) == 2 && len(as.Rhs) == 1 &&
+				exprStr(as.Rhs[0]) == "storage["+keyVar+"]" && exprStr(t.Cond) == exprStr(as.Lhs[1]) && len(t.Body.List) > 0 {
+				if rs, ok := t.Body.List[len(t.Body.List)-1].(*ast.ReturnStmt); ok && len(rs.Results) == 1 && exprStr(rs.Results[0]) == exprStr(as.Lhs[0]) {
+					recheckPos = t.Pos() // the last such lookup in source order
+				}
+			}
 		case *ast.IndexExpr:
 			if exprStr(t.X) == "storage" && exprStr(t.Index) != keyVar {
 				okIdx = false
@@ -579,6 +610,9 @@ func analyseGetOrCreate(fd *ast.FuncDecl) (bool, string) {
 	}
 	if lockPos == token.NoPos || storePos < lockPos {
 		return false, "store not preceded by mc.mu.Lock()"
+	}
+	if recheckPos < lockPos || recheckPos > storePos {
+		return false, "no lookup of storage[key] between mc.mu.Lock() and the store (get-or-create would not be atomic)"
 	}
 	return true, ""
 }
